@@ -482,6 +482,25 @@ fn run_c19(case: &Value, id: &str, _rng: &mut Rng) -> Value {
     let mut first = hdrs;
     let rest = first.split_off(split);
     let mut resp = match base {
+        // every third constructor case hands the same list over through the constructor's receiver, from a thread that
+        // is still producing while the constructor runs (the constructor takes headers until the sender is gone)
+        "ctor" if id.bytes().map(|b| b as u32).sum::<u32>() % 3 == 0 => {
+            let (tx, rx) = std::sync::mpsc::channel();
+            let list2 = first;
+            let producer = std::thread::spawn(move || {
+                for (i, h) in list2.into_iter().enumerate() {
+                    if i > 0 {
+                        std::thread::sleep(std::time::Duration::from_millis(3));
+                    }
+                    if tx.send(h).is_err() {
+                        break;
+                    }
+                }
+            });
+            let r = Response::new(StatusCode(200), vec![], std::io::Cursor::new(data.clone()), Some(5), Some(rx));
+            let _ = producer.join();
+            r
+        }
         "ctor" => Response::new(StatusCode(200), first, std::io::Cursor::new(data.clone()), Some(5), None),
         "add" => {
             let mut r = Response::new(StatusCode(200), vec![], std::io::Cursor::new(data.clone()), Some(5), None);
